@@ -348,7 +348,7 @@ func (c13Engine) Gen(r *core.Rand, tier string, i int) any {
 		if r.Chance(1, 4) {
 			sc.FailAt = r.Intn(70000)
 		}
-	case f < 8:
+	case f < 8 && kids != "talkers":
 		sc.Output = "flush"
 		sc.FlushFail = true
 	case f < 9:
